@@ -307,11 +307,13 @@ theorem emitted_genOf {K : Type} [Trig K] (ob : Obs ι) (P : Pts K) (hN : Normal
   | height => exact only_free_height P hN o tol
   | xyz => exact only_free_xyz P hN o tol
 
-/-- **the columns of one sparse row of an active record with distinct point names** -/
+/-- **the columns of one sparse row of an active record**: always in `1..dm_cols`; pairwise distinct when the point
+    names of the record are distinct -/
 theorem row_columns_ok (net : Net ι ℝ) (nobs : List (NObs ι ℝ)) (no : NObs ι ℝ) (hno : no ∈ activeOf net nobs)
-    (hd : rolesDistinct no.obs = true) (row : Row ℝ)
+    (row : Row ℝ)
     (hrow : row ∈ (@linObs ι ℝ realTrig net (bookOf net nobs).idx.ind no).rows) :
-    (row.map Prod.snd).Nodup ∧ ∀ k ∈ row.map Prod.snd, 1 ≤ k ∧ k ≤ (bookOf net nobs).idx.cols := by
+    (rolesDistinct no.obs = true → (row.map Prod.snd).Nodup) ∧
+      ∀ k ∈ row.map Prod.snd, 1 ≤ k ∧ k ≤ (bookOf net nobs).idx.cols := by
   obtain ⟨inv0, hkey⟩ := G3Book.final_inv net.points (nobs.map fun (o : NObs ι ℝ) => o.obs)
   have inv : G3Book.Inv (isFreePar net.points) (bookOf net nobs).idx := inv0
   have hact := (List.mem_filter.1 hno)
@@ -351,7 +353,8 @@ theorem row_columns_ok (net : Net ι ℝ) (nobs : List (NObs ι ℝ)) (no : NObs
       rw [← this]
       exact hq2
   constructor
-  · refine List.Nodup.map_on ?_ ((patOf_nodup no.obs).filter _)
+  · intro hd
+    refine List.Nodup.map_on ?_ ((patOf_nodup no.obs).filter _)
     intro q hq q' hq' he
     obtain ⟨n, hn, e1, hne⟩ := hidx q hq
     obtain ⟨n', hn', e1', _⟩ := hidx q' hq'
@@ -380,11 +383,32 @@ theorem dump_rowsOK (net : Net ι ℝ) (sd : ℝ) (cls : List (Cluster ι ℝ)) 
   obtain ⟨e, ⟨no, hno, rfl⟩, hz⟩ := hm
   have hrow := (List.of_mem_zip hz).1
   have hdno : rolesDistinct no.obs = true := hd no (List.mem_filter.1 hno).1
-  obtain ⟨h1, h2⟩ := row_columns_ok net (nobsOf cls) no hno hdno _ hrow
+  obtain ⟨h1', h2⟩ := row_columns_ok net (nobsOf cls) no hno _ hrow
+  have h1 := h1' hdno
   simp only [List.map_map, Function.comp_def] at h1 h2 ⊢
   exact ⟨h1, fun cv hcv => by
     obtain ⟨ci, hci, rfl⟩ := List.mem_map.1 hcv
     exact h2 ci.2 (List.mem_map.2 ⟨ci, hci, rfl⟩)⟩
+
+/-- **`RowsOK` of the dump, unconditionally** (round 13: since /repo a7902736 class `Adj` sums repeated columns and
+    `RowsOK` is the range condition only): every stored column index is `Parameter::index()` of an adjusted parameter
+    that `update_index` numbered, hence in `1..dm_cols` — also for a record from a point to itself -/
+theorem dump_rowsOK' (net : Net ι ℝ) (sd : ℝ) (cls : List (Cluster ι ℝ)) : RowsOK (dumpOfR net sd cls) := by
+  intro i hi
+  have hi' : i < (netEqsR net (nobsOf cls)).length := hi
+  rw [dump_rows_getD net sd cls i hi']
+  have hm : (netEqsR net (nobsOf cls)).get ⟨i, hi'⟩ ∈ netEqsR net (nobsOf cls) := List.get_mem _ _
+  simp only [netEqsR, netEqs, linearizeNet, List.mem_flatMap, List.mem_map] at hm
+  obtain ⟨e, ⟨no, hno, rfl⟩, hz⟩ := hm
+  have hrow := (List.of_mem_zip hz).1
+  obtain ⟨-, h2⟩ := row_columns_ok net (nobsOf cls) no hno _ hrow
+  intro cv hcv
+  obtain ⟨ci, hci, rfl⟩ := List.mem_map.1 hcv
+  exact h2 ci.2 (List.mem_map.2 ⟨ci, hci, rfl⟩)
+
+/-- **`Env.InputOK (dumpOf …)` holds for every network** (round 13) -/
+theorem dump_inputOK' (net : Net ι ℝ) (sd : ℝ) (cls : List (Cluster ι ℝ)) : Env.InputOK (dumpOfR net sd cls) :=
+  ⟨dump_blocksWF net sd cls, dump_dims net sd cls, dump_rowsOK' net sd cls⟩
 
 /-- **`Env.InputOK (dumpOf …)` — the whole static hypothesis of C01's `Adj` theorems — from `DistinctRoles`** -/
 theorem dump_inputOK (net : Net ι ℝ) (sd : ℝ) (cls : List (Cluster ι ℝ)) (hd : DistinctRoles cls) :
